@@ -14,7 +14,7 @@
       parser never leaves empty are not empty (what [Document::parse] guarantees of its own result). *)
 From WacV Require Import Str Token Lexer LexTables LexImpl Semver Ast Parser Grammar ParserProofs.
 From WacV Require Import Printer PrintSpec PrinterText PrinterProofs PrinterWf PrinterLex PrinterAll PrinterWitness.
-From WacV Require Import PrinterScreen PrinterScan PrinterAdj PrinterRelex PrinterFull.
+From WacV Require Import PrinterScreen PrinterScan PrinterAdj PrinterRelex PrinterFull PrinterColon.
 
 (* ------------------------------------------------------------------ what the parser guarantees *)
 
@@ -76,67 +76,43 @@ Theorem print_screen src d r ps :
 Proof. exact (PrinterScreen.print_screen src d r ps). Qed.
 Print Assumptions print_screen.
 
-(** [render_lex_partial]. FULL statement (DESIGN): for every parsed [d] with printed pieces [ps],
-    [lex impl_cfg (text_of ps) = items_of_pieces ps] -- the lexer returns exactly the tokens the
-    printer meant, with the spans and doc comments [items_of_pieces] computes: the printer always
-    separates two tokens that could fuse.
-    PROVED: that statement under one decidable side condition on the printed pieces, [kwcb ps]: an
-    identifier piece spelled like a keyword is directly followed by the colon piece. Everything else is
-    discharged: the layout half (blanks, line feeds, doc lines, doc-comment attachment, byte offsets,
-    fuel), screening ([print_screen]), and every token boundary -- every keyword / identifier /
-    package copy is followed by a blank, a line feed or a punctuation character that cannot continue
-    it ([PrinterAdj.adj_document], for ALL trees); every source-copied text, having been cut by
+(** [render_lex]: for every parsed [d] with printed pieces [ps], the lexer returns for the printed
+    text exactly the tokens the printer meant -- kinds, texts, byte spans and attached doc comments as
+    [items_of_pieces] computes them: the printer always separates two tokens that could fuse.
+    Ingredients (all proved): the layout half (blanks, line feeds, doc lines, doc-comment attachment,
+    byte offsets, fuel: [PrinterLex]); screening ([print_screen]); every keyword / identifier / package
+    copy is followed by a blank, a line feed or a punctuation character that cannot continue it
+    ([PrinterAdj.adj_document], for ALL trees); every source-copied text, having been cut by
     [scan_token] out of the source ([PrinterLexFacts.lex_facts]), is cut again with the same kind when
     such a character follows ([PrinterScan.rescan_ident / rescan_string / rescan_pkg]: [%]-escapes,
-    versions with pre-release/build parts, dangling-dash identifiers, a following [: ]); the
-    printer's literals by [rescan_kw / rescan_sym].
-    MISSING: [kwcb ps = true] for every parsed document. It is vacuous unless the source has an
-    identifier TOKEN spelled like a keyword, which the lexer model returns only for a keyword directly
-    followed by a colon ([record: func()], the logos artefact recorded as C12 finding keyword_colon;
-    see [render_lex_plain_idents]). For those documents it says that the printer prints the colon
-    directly after that identifier again; proving it needs the position of the token in the grammar
-    (such a token is always followed by a Colon token, hence sits where the printer writes [id: ]),
-    not only its lexical origin. The check evaluates [kwcb] on every document of every run. *)
-Theorem render_lex_partial src d r ps :
+    versions with pre-release/build parts, dangling-dash identifiers, a following [: ]); the printer's
+    literals ([rescan_kw / rescan_sym]); and the lexer's keyword-before-colon artefact
+    ([record: func()]): an identifier token spelled like a keyword is always directly followed by a
+    colon token ([PrinterColon.lex_inv]), therefore sits in every derivation where the grammar has
+    [id ':'], where the printer writes the colon directly after the copy ([PrinterColon.parsed_kwcb]). *)
+Theorem render_lex src d r ps :
   parse_document impl_flags impl_cfg src = POk d r -> print_pieces repaired src d = Some ps ->
-  kwcb ps = true ->
-  lex impl_cfg (text_of ps) = items_of_pieces ps.
-Proof. exact (render_lex_full src d r ps). Qed.
-Print Assumptions render_lex_partial.
-
-(** The side condition holds when no identifier token of the source is spelled like a keyword. *)
-Theorem render_lex_plain_idents src d r ps :
-  parse_document impl_flags impl_cfg src = POk d r -> no_kw_idents src ->
-  print_pieces repaired src d = Some ps ->
   lex impl_cfg (text_of ps) = items_of_pieces ps.
 Proof.
-  intros H Hnk Hp. apply (render_lex_full src d r ps H Hp). exact (no_kw_idents_kwcb src d r ps H Hnk Hp).
+  intros H Hp. apply (render_lex_full src d r ps H Hp). exact (parsed_kwcb src d r ps H Hp).
 Qed.
-Print Assumptions render_lex_plain_idents.
+Print Assumptions render_lex.
 
 (* ------------------------------------------------------------------ text level *)
 
-(** [print_roundtrip_partial] = [print_parse_text] + [print_idempotent] at text level: the printed
-    text is accepted by [Document::parse] (model) with a tree equal to the original up to [sn], and
-    printing that tree reproduces the text byte for byte.
-    FULL statement: for every parsed document. PROVED: under the side condition [kwcb ps] of
-    [render_lex_partial] (in particular for every source without a keyword-spelled identifier token:
-    [print_roundtrip_plain_idents]). MISSING: exactly what [render_lex_partial] is missing. *)
-Theorem print_roundtrip_partial src d r ps :
-  parse_document impl_flags impl_cfg src = POk d r -> print_pieces repaired src d = Some ps ->
-  kwcb ps = true ->
-  RoundTrip repaired src d /\ Idempotent repaired src d.
-Proof. exact (print_roundtrip_full src d r ps). Qed.
-Print Assumptions print_roundtrip_partial.
-
-Theorem print_roundtrip_plain_idents src d r :
-  parse_document impl_flags impl_cfg src = POk d r -> no_kw_idents src ->
+(** [print_roundtrip] = [print_parse_text] + [print_idempotent] at text level, FULL strength: for
+    every document the parser (model) accepts, the (repaired) printer's text is accepted by
+    [Document::parse] (model) with a tree equal to the original up to source positions and
+    doc-comment line splitting, and printing that tree out of the printed text reproduces the text
+    byte for byte. *)
+Theorem print_roundtrip src d r :
+  parse_document impl_flags impl_cfg src = POk d r ->
   RoundTrip repaired src d /\ Idempotent repaired src d.
 Proof.
-  intros H Hnk. destruct (print_no_panic_wf src d (parse_wf_impl src d r H)) as (ps & Hp).
-  apply (print_roundtrip_full src d r ps H Hp). exact (no_kw_idents_kwcb src d r ps H Hnk Hp).
+  intros H. destruct (print_no_panic_wf src d (parse_wf_impl src d r H)) as (ps & Hp).
+  apply (print_roundtrip_full src d r ps H Hp). exact (parsed_kwcb src d r ps H Hp).
 Qed.
-Print Assumptions print_roundtrip_plain_idents.
+Print Assumptions print_roundtrip.
 
 (** [nothing_dropped]: what [sn]-equality says construct by construct -- the package directive keeps
     its target and its version, the statements are as many and of the same normal form. *)
